@@ -23,6 +23,7 @@ REQUIRED_COUNTERS = {"asked_from_descendant": {"quick": 100, "thorough": 1000},
                      "asked_from_sibling": {"quick": 100, "thorough": 1000},
                      "asked_from_self": {"quick": 50, "thorough": 500},
                      "lifecycle_cases": {"quick": 10, "thorough": 30},
+                     "frameless_parent_cases": {"quick": 6, "thorough": 6},
                      "greenback_extractions": {"quick": 10, "thorough": 40}}
 SHARD_TIMEOUT = {"quick": 400, "thorough": 3600}
 
@@ -159,6 +160,46 @@ def worker(spec):
         return res
 
     if spec["leg"] == "lifecycle":
+        # a greenlet whose parent has no frames (never started, or already dead): an exception would pass
+        # straight through such a parent, but the greenlet's own portion is still just its own frames
+        main_gl = greenlet.getcurrent()
+        for pkind in ("unstarted", "dead"):
+            for d in (1, 2, 3):
+                par = greenlet.greenlet(lambda *a: None)
+                if pkind == "dead":
+                    par.switch()
+                box = {}
+
+                def deeper(k):
+                    if k > 1:
+                        return deeper(k - 1)
+                    me = greenlet.getcurrent()
+                    exp = []
+                    f = sys._getframe(0)
+                    while f is not None:
+                        exp.append(f)
+                        f = f.f_back
+                    box["self"] = (extract(me), exp[::-1])
+
+                    def child_asks():
+                        box["child"] = (extract(me), own_walk(me))
+                    greenlet.greenlet(child_asks).switch()
+                    main_gl.switch()
+
+                def fp_entry():
+                    return deeper(d)
+
+                g = greenlet.greenlet(fp_entry, parent=par)
+                g.switch()
+                label = "parent %s, call depth %d" % (pkind, d)
+                res.count("frameless_parent_cases")
+                judge(label, 0, "self", box["self"][0], box["self"][1])
+                judge(label, 0, "descendant", box["child"][0], box["child"][1])
+                judge(label, 0, "outside", extract(g), own_walk(g))
+                try:
+                    g.throw(greenlet.GreenletExit)
+                except BaseException:
+                    pass
         for rep in range(spec["reps"]):
             def fn():
                 return 1
